@@ -219,7 +219,40 @@ def _check_case(case, res, count=True):
         return None
     except Exception as exc:
         return ('attackgraph.generate:raised-%s' % type(exc).__name__, 'generation raised %r' % (exc,))
-    return check_graph(built, graph, res, count)
+    f = check_graph(built, graph, res, count)
+    if f or len(graph.nodes) < 2 or len(graph.nodes) % 4 != 0:
+        return f
+    # per-node data is per node: an in-place edit of one node's tags / ttc shows nowhere else - not on the other nodes,
+    # not in a graph generated afterwards from the same language graph and model
+    nodes = list(graph.nodes)
+    target = nodes[len(nodes) // 3]
+    before = [(copy.deepcopy(n.tags), copy.deepcopy(n.ttc), copy.deepcopy(n.mitre_info)) for n in nodes]
+    if isinstance(target.tags, list):
+        target.tags.append('suppress')
+    if isinstance(target.ttc, dict):
+        target.ttc['arguments'] = [123.0]
+        target.ttc['name'] = 'Edited'
+    if isinstance(getattr(target, 'attributes', None), dict) and isinstance(target.attributes.get('tags'), list):
+        target.attributes['tags'].append('attr-edit')
+    if count:
+        res.count('class:in-place-edit-of-one-node')
+    for n, b in zip(nodes, before):
+        if n is target:
+            continue
+        if (n.tags, n.ttc, n.mitre_info) != b:
+            return ('attackgraph.nodes:per-node-data-shared',
+                    'after editing tags / ttc of node %s in place, node %s reads tags %r ttc %r (before: %r %r)' % (
+                        target.full_name, n.full_name, n.tags, n.ttc, b[0], b[1]))
+    try:
+        graph2 = built.attack_graph()
+    except TooExpensive:
+        return None
+    except Exception as exc:
+        return ('attackgraph.generate:raised-%s' % type(exc).__name__, 'second generation raised %r' % (exc,))
+    f = check_graph(built, graph2, res, count=False)
+    if f:
+        return (f[0], 'graph generated after a node of an earlier graph was edited in place: ' + f[1])
+    return None
 
 
 check_case = safe(_check_case)
@@ -363,6 +396,10 @@ def run(rng, res, tier, shard, nshards):
                 h.extend(targeted_departures(rng, case['spec'], h[:cut]))
                 for _ in range(rng.randint(0, 3)):
                     h.append(['remove_from_assoc', ['live', rng.randrange(64)], ['live', rng.randrange(64)]])
+            if rng.random() < 0.5:
+                # operations that are refused (an asset of the model added again under its own id): nothing may change
+                for _ in range(rng.randint(1, 6)):
+                    h.append(['re_add_asset', ['live', rng.randrange(64)]])
             case = {'source': 'history', 'spec': case['spec'], 'amodel': {'assets': [], 'links': [], 'attackers': []},
                     'history': h, 'generate_after': cut}
         first = check_case(case, res)
